@@ -1,4 +1,5 @@
 import PedVerif.Spec.Mixins
+import PedVerif.Gen.MixinsShape
 /-!
 # C20 — mixins report type arguments and decorated methods exactly
 
@@ -1738,6 +1739,37 @@ theorem helpers_keep_nothing :
     loopPrefersOriginsDerivedFrom = some "GenericMixin" ∧ loopFallsBackToAll = true ∧ loopSkipsOriginsWithoutOrigBases = true ∧
     getTypesDecorators = [] ∧ getGenericBaseDecorators = [] ∧
     typeVarDecorators = ["property"] ∧ typeVarsDecorators = ["property"] := by decide
+
+/-- **a configured decorator keeps its argument**: whatever factory calls are made afterwards (`later`: the same factory called again
+    with other arguments, other factories), the k-th configured decorator applies what it was configured with — so a decorator that is
+    stored (`get_index = route('/index')`) and applied after `route('/about')` was configured sets '/index' -/
+theorem configured_decorator_keeps_its_argument (confs : Confs) (a : App) (later : List App) :
+    configured (later.foldl configure (configure confs a)) confs.length = some a := by
+  have h : ∀ (l : List App) (c : Confs), l.foldl configure c = c ++ l := by
+    intro l
+    induction l with
+    | nil => intro c; simp
+    | cons x r ih => intro c; simp [List.foldl_cons, ih, configure]
+  simp [h, configured, configure]
+
+example : configured (([⟨100, 2, .none⟩, ⟨100, 3, .wraps⟩] : List App).foldl configure (configure [] ⟨100, 1, .none⟩)) 0 = some ⟨100, 1, .none⟩ := by
+  decide
+
+/-- **the two mixins keep nothing and hook into nothing**: neither `GenericMixin` nor `WithDecoratedMethods` assigns a name at class level
+    (no per-class cache such as `_generic_base`), defines a dunder method (`__init_subclass__`, `__class_getitem__`, `__new__`, `__init__`:
+    hooks that another base earlier in the MRO can shadow, or cut off by not calling `super()`), or names a metaclass; the modules bind
+    nothing at module level but the three TypeVars of with_decorated_methods.py; no statement stores into an attribute of a function or
+    class (`decorator.value = value`: a slot shared by all configured decorators of one factory); no `global` / `nonlocal`.  So what
+    `type_vars` answers is computed from `__orig_bases__` / `__orig_class__` at the time of the query, whatever other bases do while the
+    class is created, and a configured decorator is a closure over its own argument -/
+theorem mixins_keep_no_state :
+    PedVerif.Gen.MixinsShape.gmClassState = [] ∧ PedVerif.Gen.MixinsShape.gmDunderMethods = [] ∧
+    PedVerif.Gen.MixinsShape.gmClassKeywords = [] ∧
+    PedVerif.Gen.MixinsShape.wdmClassState = [] ∧ PedVerif.Gen.MixinsShape.wdmDunderMethods = [] ∧
+    PedVerif.Gen.MixinsShape.wdmClassKeywords = [] ∧
+    PedVerif.Gen.MixinsShape.gmModuleState = [] ∧ PedVerif.Gen.MixinsShape.wdmModuleState = ["E", "T", "C"] ∧
+    PedVerif.Gen.MixinsShape.gmAttributeStores = [] ∧ PedVerif.Gen.MixinsShape.wdmAttributeStores = [] ∧
+    PedVerif.Gen.MixinsShape.scopeEscapes = 0 := by decide
 
 /-- **every query is answered on its own**: in any history of queries on any instances — of the same class or of different classes,
     hashable or not, comparing equal or not (the model has no place where that could enter) — the answer to a query is the answer
